@@ -96,7 +96,7 @@ theorem h2cElem_headLine (i : Nat) (k v : Str) (hk : KeyOk k) (hv : ValOk v)
     rw [e]
     apply mem_take_of_index
     have := hk.short
-    simp [KEY_LENGTH_MAX]; omega
+    simp [KEY_LENGTH_MAX, Gen.keyLengthMax]; omega
   unfold h2cElem
   simp only [hd, Bool.false_eq_true, if_false, hkey, hval, hstripkey, hk.lowered, subSpaces,
     subSpacesAux_id false k hnosp, hcontains, if_true, hv.nonempty]
@@ -216,9 +216,19 @@ theorem compress_roundtrip (name : Str) (h : name ≠ []) :
         apply beq_eq_false_iff_ne.mpr
         intro heq
         exact hgznezip (List.append_cancel_left heq)
+      -- the candidate list regenerated from csv.py: <stem>.gz is tried before <stem>.zip, and neither .csv nor
+      -- .csv.gz comes first
+      have hcands : (Gen.checkNameExtensions.map fun e => stem name ++ '.' :: e.toList)
+          = [stem name ++ extGz, stem name ++ extZip, stem name ++ extCsv, stem name ++ (extCsv ++ extGz)] := by
+        simp only [Gen.checkNameExtensions, List.map_cons, List.map_nil]
+        have e1 : ('.' :: "gz".toList) = extGz := by decide
+        have e2 : ('.' :: "zip".toList) = extZip := by decide
+        have e3 : ('.' :: "csv".toList) = extCsv := by decide
+        have e4 : ('.' :: "csv.gz".toList) = extCsv ++ extGz := by decide
+        rw [e1, e2, e3, e4]
       unfold readTarget checkName
-      rw [if_neg (by simp [hne'])]
-      simp only [List.map_cons, List.find?_cons, hgz, beq_self_eq_true]
+      rw [if_neg (by simp [hne']), hcands]
+      simp only [List.find?_cons, hgz, beq_self_eq_true]
       rw [suffix_stem_zip name h, if_neg (Ne.symm hgznezip), if_pos rfl]
 
 /-- **plain files**: a file written without compression under a name whose extension is neither `.gz`
